@@ -128,14 +128,8 @@ class SimEnv:
         return self
 
     def __exit__(self, *exc):
-        root = logging.getLogger()
-        root.handlers[:] = self._old_handlers
-        root.setLevel(self._old_level)
-        for obj, name, old in reversed(self._undo):
-            setattr(obj, name, old)
-        self._undo.clear()
         try:
-            # cancel leftover tasks quietly
+            # cancel leftover tasks quietly (still under the patched clocks / captured logging)
             for t in list(asyncio.all_tasks(self.loop)):
                 t.cancel()
             self.loop.set_exception_handler(lambda l, c: None)
@@ -144,6 +138,12 @@ class SimEnv:
             except BaseException:
                 pass
         finally:
+            root = logging.getLogger()
+            root.handlers[:] = self._old_handlers
+            root.setLevel(self._old_level)
+            for obj, name, old in reversed(self._undo):
+                setattr(obj, name, old)
+            self._undo.clear()
             uninstall()
             self.loop.close()
             gc.enable()
